@@ -12,8 +12,9 @@ class Config:
     ``contract`` holds post / loops / hooks; ``replay(model, obl, ex) -> dict`` concretises a counter-model and runs the
     real function (returns {'reproduced': bool, ...})."""
 
-    def __init__(self, name, contract, setup, replay=None):
-        self.name, self.contract, self.setup, self.replay = name, contract, setup, replay
+    def __init__(self, name, contract, setup, replay=None, finite=None):
+        """finite: optional callable(ex) -> (lo, hi, extra constraints) enabling bounded refutation of undecided obligations"""
+        self.name, self.contract, self.setup, self.replay, self.finite = name, contract, setup, replay, finite
 
 
 class Target:
